@@ -3321,12 +3321,24 @@ XPath::stepPattern(
 
             opPos += 3;
 
-            score = NodeTester(
+            // Only an attribute node can match a step on the attribute
+            // axis, whatever the node test is (@node(), @text(), ...),
+            // and a namespace declaration is not an attribute node.
+            if (context->getNodeType() != XalanNode::ATTRIBUTE_NODE ||
+                DOMServices::isNamespaceDeclaration(
+                    static_cast<const XalanAttr&>(*context)) == true)
+            {
+                score = eMatchScoreNone;
+            }
+            else
+            {
+                score = NodeTester(
                             *this,
                             executionContext,
                             opPos,
                             argLen,
-                            XPathExpression::eFROM_ATTRIBUTES)(*context, context->getNodeType());
+                            XPathExpression::eFROM_ATTRIBUTES)(*context, XalanNode::ATTRIBUTE_NODE);
+            }
         }
         break;
 
